@@ -174,7 +174,7 @@ def targetInst : Op → Option (InstId × Name)
 
 /-- is the operation on instance `i`, parameter `x` served by a Parameter object of the instance's
     own (it has a copy, or the class Parameter allows one to be made)? -/
-def usesOwn (prev : Snap) (i : InstId) (x : Name) : Bool :=
+def usesOwnObs (prev : Snap) (i : InstId) (x : Name) : Bool :=
   match prev.insts[i]? with
   | none => false
   | some I =>
@@ -275,7 +275,7 @@ def stepOK (prev cur : Snap) (op : Op) : Option String :=
   | _ =>
     match targetInst op with
     | some (i, x) =>
-      if usesOwn prev i x then
+      if usesOwnObs prev i x then
         (match othersSame prev cur i with
          | some w => some s!"operation on instance {i} {w}"
          | none =>
